@@ -84,66 +84,146 @@ Proof.
       unfold rel_suffix. rewrite (tmpp_not_root a Pa), skipn_all, app_nil_r. reflexivity.
 Qed.
 
-Lemma write_cfg_exact e l a f0 : e_pretend e = false -> plain a -> l_path l = layer_path c a ->
-  fs_clean f0 -> closed f0 -> fs_get f0 (tmpp Lc a) = None ->
-  post (fun w => w_fs w = f0) (write_layerfile e l)
-    (fun _ w' => w_fs w' = filter (not_at (cfgp Lc a)) f0
-                 ++ [(cfgp Lc a, File (concat (layerfile_chunks (l_base l) (l_mounts l) (l_exports l))))]).
+(* the same protocol when a temporary file left by an interrupted run may be in the way: it is
+   truncated, filled and renamed into place like a fresh one.  What the tree looks like afterwards,
+   by lookups and membership. *)
+Definition no_under (p : bytes) (f : fsT) : Prop := forall e0, In e0 f -> under p (fst e0) = false.
+Record cfg_written (a X : bytes) (f0 f' : fsT) : Prop := mkCW {
+  cw_cfg : fs_get f' (cfgp Lc a) = Some (File X);
+  cw_other : forall q, q <> cfgp Lc a -> q <> tmpp Lc a -> under (tmpp Lc a) q = false -> fs_get f' q = fs_get f0 q;
+  cw_in : forall q nd, In (q, nd) f' -> q = cfgp Lc a \/ (q <> tmpp Lc a /\ In (q, nd) f0);
+  cw_nu : no_under (tmpp Lc a) f0 }.
+
+Lemma closed_file_none f ds x : closed f -> plains ds -> fs_get f (pa ds) = Some (File x) ->
+  forall r, plains r -> r <> [] -> fs_get f (pa (ds ++ r)) = None.
 Proof.
-  intros Hnp Pa Ep Hc0 Hcl0 Htmp. apply write_cfg_exact_gen; auto.
-  intros [p m] Hin. cbn [fst]. destruct (at_or_under (tmpp Lc a) p) eqn:Ea; [|reflexivity]. exfalso.
-  pose proof (Hc0 _ _ Hin) as Hp. apply clean_abs_repr in Hp as (ps & Pp & ->). unfold tmpp in Ea.
-  assert (PT : plains (Lc ++ [a; lcf ++ tmp_suffix])).
-  { apply plains_dirty; [exact HLc|exact Pa|constructor; [apply plain_lcf_tmp|constructor]]. }
-  apply at_or_under_pa in Ea as (r & ->); [|exact PT|exact Pp].
-  assert (Pr : plains r) by (apply plains_app in Pp; tauto).
-  pose proof (closed_none f0 _ Hcl0 PT Htmp r Pr) as En. apply (proj1 (fs_get_None _ _) En m Hin).
+  intros HC Pd Hn r. induction r as [|y r IH] using rev_ind; intros Pr Hr; [congruence|].
+  apply plains_app in Pr as [Pr Py]. inversion Py as [|? ? Py' _]; subst.
+  destruct (fs_get f (pa (ds ++ r ++ [y]))) as [m|] eqn:E; [|reflexivity]. exfalso.
+  apply fs_get_In in E.
+  assert (Hnr : pa (ds ++ r ++ [y]) <> root).
+  { intros E2. apply (pa_root_iff (ds ++ r ++ [y])) in E2.
+    - destruct ds; [destruct r|]; discriminate.
+    - apply plains_app. split; [exact Pd|]. apply plains_app. split; [exact Pr|exact Py]. }
+  pose proof (HC _ _ E Hnr) as E3.
+  rewrite app_assoc, pathdir_pa in E3; [|apply plains_app; now split|exact Py'].
+  destruct r as [|z r']; [rewrite app_nil_r in E3; congruence|].
+  rewrite IH in E3; [discriminate|exact Pr|discriminate].
 Qed.
 
-Lemma rebase_exact_final f0 a b content ms es :
+Lemma no_under_tmp a f0 : plain a -> fs_clean f0 -> closed f0 ->
+  (fs_get f0 (tmpp Lc a) = None \/ exists o, fs_get f0 (tmpp Lc a) = Some (File o)) -> no_under (tmpp Lc a) f0.
+Proof.
+  intros Pa Hc0 Hcl0 Ht [p m] Hin. cbn [fst]. destruct (under (tmpp Lc a) p) eqn:Eu; [|reflexivity]. exfalso.
+  pose proof (Hc0 _ _ Hin) as Hp. apply clean_abs_repr in Hp as (ps & Pp & ->).
+  assert (PT : plains (Lc ++ [a; lcf ++ tmp_suffix])).
+  { apply plains_dirty; [exact HLc|exact Pa|constructor; [apply plain_lcf_tmp|constructor]]. }
+  unfold tmpp in Eu. apply under_pa in Eu as (r & Hr & ->); [|exact PT|exact Pp].
+  assert (Pr : plains r) by (apply plains_app in Pp as [_ Pp]; exact Pp).
+  assert (En : fs_get f0 (pa ((Lc ++ [a; lcf ++ tmp_suffix]) ++ r)) = None).
+  { destruct Ht as [Ht|(o & Ht)]; [now apply closed_none|now apply (closed_file_none f0 _ o)]. }
+  apply (proj1 (fs_get_None _ _) En m Hin).
+Qed.
+
+Lemma write_cfg_lookup e l a f0 : e_pretend e = false -> plain a -> l_path l = layer_path c a ->
+  fs_clean f0 -> closed f0 ->
+  post (fun w => w_fs w = f0) (write_layerfile e l) (fun _ w' => cfg_written a (chunks_of l) f0 (w_fs w')).
+Proof.
+  intros Hnp Pa Ep Hc0 Hcl0. unfold write_layerfile. rewrite (layerconfig_path_eq c Lc HLc HL l a Ep Pa).
+  assert (Htc : (tmpp Lc a) <> (cfgp Lc a)) by (apply tmpp_ne_cfgp; assumption).
+  apply (post_write_atomically _ _ (fun x w =>
+           no_under (tmpp Lc a) f0 /\ fs_get (w_fs w) (tmpp Lc a) = Some (File x) /\
+           (forall q, q <> (tmpp Lc a) -> fs_get (w_fs w) q = fs_get f0 q) /\
+           (forall q nd, q <> (tmpp Lc a) -> In (q, nd) (w_fs w) -> In (q, nd) f0)));
+    [exact Hnp| | |]; rewrite ?tmp_path_eq.
+  - intros w w' Ew E. cbn [op_result] in E. unfold on_fres in E. rewrite Ew in E.
+    destruct (open_trunc f0 (tmpp Lc a)) as [f'|] eqn:Eo; [|discriminate]. injection E as <-. cbn [set_fs w_fs].
+    apply open_trunc_shape in Eo as [[Eg ->]|(o & Eg & ->)].
+    + split; [apply no_under_tmp; auto|]. split; [rewrite fs_get_app, Eg; cbn [fs_get]; now rewrite beq_refl|]. split.
+      * intros q Hq. rewrite fs_get_app. destruct (fs_get f0 q); [reflexivity|]. cbn [fs_get].
+        destruct (beq (tmpp Lc a) q) eqn:E; [apply beq_true in E; congruence|reflexivity].
+      * intros q nd Hq Hin. apply in_app_or in Hin as [Hin|[Hin|[]]]; [exact Hin|]. injection Hin as <- _. congruence.
+    + split; [apply no_under_tmp; eauto|]. split; [rewrite fs_get_set; now rewrite beq_refl|]. split.
+      * intros q Hq. rewrite fs_get_set. destruct (beq (tmpp Lc a) q) eqn:E; [apply beq_true in E; congruence|reflexivity].
+      * intros q nd Hq Hin. apply fs_set_In in Hin as [[-> _]|Hin]; [congruence|exact Hin].
+  - intros x ch w (H0 & H1 & H2 & H3). cbn [set_fs w_fs]. unfold append_file, lstat. rewrite H1.
+    split; [exact H0|]. split; [rewrite fs_get_set; now rewrite beq_refl|]. split.
+    + intros q Hq. rewrite fs_get_set. destruct (beq (tmpp Lc a) q) eqn:E; [apply beq_true in E; congruence|now apply H2].
+    + intros q nd Hq Hin. apply fs_set_In in Hin as [[-> _]|Hin]; [congruence|now apply H3].
+  - intros w w' (H0 & H1 & H2 & H3) E. cbn [op_result] in E. unfold on_fres in E.
+    destruct (rename (w_fs w) (tmpp Lc a) (cfgp Lc a)) as [f'|] eqn:Er; [|discriminate]. injection E as <-. cbn [set_fs w_fs].
+    apply rename_shape in Er as [[E _]|(na & _ & _ & -> & _)]; [contradiction|].
+    set (F := filter (not_at (cfgp Lc a)) (w_fs w)).
+    assert (HF : forall q, q <> (cfgp Lc a) -> fs_get F q = fs_get (w_fs w) q).
+    { intros q Hq. apply fs_get_filter. intros m. unfold not_at. cbn [fst]. now apply negb_true_iff, beq_false. }
+    assert (Hau : forall e0, In e0 F -> at_or_under (tmpp Lc a) (fst e0) = true -> fst e0 = (tmpp Lc a)).
+    { intros [q m] Hin Ha. cbn [fst] in *. apply filter_In in Hin as [Hin _]. unfold at_or_under in Ha.
+      apply orb_true_iff in Ha as [Ha|Ha]; [now apply beq_true in Ha|]. exfalso.
+      destruct (beq q (tmpp Lc a)) eqn:Eq; [apply beq_true in Eq; subst q; unfold under in Ha|].
+      - rewrite (tmpp_not_root a Pa) in Ha. apply prefixb_spec in Ha as (t & Et).
+        apply (f_equal (@length _)) in Et. rewrite !app_length in Et. cbn in Et. lia.
+      - apply beq_false in Eq. pose proof (H0 (q, m) (H3 q m Eq Hin)) as Hn. cbn [fst] in Hn. congruence. }
+    assert (Hsfx : rel_suffix (tmpp Lc a) (tmpp Lc a) = []).
+    { unfold rel_suffix. rewrite (tmpp_not_root a Pa). apply skipn_all. }
+    constructor.
+    + rewrite <- (app_nil_r (cfgp Lc a)) at 2. rewrite <- Hsfx. rewrite fs_get_move_in.
+      * rewrite HF by exact Htc. exact H1.
+      * unfold at_or_under. now rewrite beq_refl.
+      * intros e0 Hin Ha _. now apply Hau.
+      * intros [q m] Hin _. cbn [fst]. rewrite Hsfx, app_nil_r. apply filter_In in Hin as [_ Hin].
+        unfold not_at in Hin. cbn [fst] in Hin. now apply negb_true_iff, beq_false in Hin.
+    + intros q Hq1 Hq2 Hq3. rewrite fs_get_move_out.
+      * rewrite HF by exact Hq1. now apply H2.
+      * intros e0 Hin Ha. rewrite (Hau e0 Hin Ha), Hsfx, app_nil_r. congruence.
+      * unfold at_or_under. rewrite Hq3, orb_false_r. now apply beq_false.
+    + intros q nd Hin. apply in_map_iff in Hin as ([p m] & E & Hin). unfold move_entry in E. cbn [fst snd] in E.
+      destruct (at_or_under (tmpp Lc a) p) eqn:Ea.
+      * left. pose proof (Hau (p, m) Hin Ea) as Ep'. cbn [fst] in Ep'. subst p. rewrite Hsfx, app_nil_r in E. now injection E as <- _.
+      * injection E as <- <-. right. apply filter_In in Hin as [Hin _].
+        assert (p <> (tmpp Lc a)) by (intros ->; unfold at_or_under in Ea; now rewrite beq_refl in Ea).
+        split; [assumption|now apply H3].
+    + exact H0.
+Qed.
+
+Lemma rebase_exact_final f0 f' a b content ms es :
   NoDup (map fst f0) -> plain a -> read_file f0 (cfgp Lc a) = Some content ->
   ms = lf_mounts (read_layerfile content) -> es = lf_exports (read_layerfile content) ->
   (b = [] \/ tok_ok b) -> Forall canon_m ms -> Forall canon_e es ->
-  C02.rebase_exact c f0 (filter (not_at (cfgp Lc a)) f0 ++ [(cfgp Lc a, File (concat (layerfile_chunks b ms es)))]) a b = true.
+  cfg_written a (concat (layerfile_chunks b ms es)) f0 f' ->
+  C02.rebase_exact c f0 f' a b = true.
 Proof.
-  intros ND Pa Hrd Ems Ees Hb Hm He. unfold C02.rebase_exact. fold lcf. rewrite (cfg_path_eq c Lc HLc HL a Pa).
-  set (cfg := cfgp Lc a). set (X := concat (layerfile_chunks b ms es)).
+  intros ND Pa Hrd Ems Ees Hb Hm He [G1 G2 G3 Hnu]. unfold C02.rebase_exact. fold lcf.
+  rewrite (cfg_path_eq c Lc HLc HL a Pa), tmp_path_eq.
+  set (cfg := cfgp Lc a) in *. set (X := concat (layerfile_chunks b ms es)) in *.
   assert (Hex : fs_get f0 cfg <> None) by (apply (read_file_exists f0 cfg content); exact Hrd).
-  assert (Hg' : fs_get (filter (not_at cfg) f0 ++ [(cfg, File X)]) cfg = Some (File X)).
-  { rewrite fs_get_app, fs_get_filter_none; [cbn [fs_get]; now rewrite beq_refl|].
-    intros m. unfold not_at. cbn [fst]. now rewrite beq_refl. }
   apply andb_true_iff. split; [apply andb_true_iff; split|].
   - apply forallb_forall. intros [p nd] Hin. cbn [fst snd]. destruct (beq p cfg) eqn:E; [reflexivity|].
-    rewrite fs_get_app, fs_get_filter; [|intros m; unfold not_at; cbn [fst]; now rewrite E].
+    destruct (beq p (tmpp Lc a)) eqn:E2; [reflexivity|]. cbn [orb]. apply beq_false in E, E2.
+    rewrite G2; [|exact E|exact E2|exact (Hnu _ Hin)].
     rewrite (nodup_fs_get f0 p nd ND Hin). cbn [opt_beq]. apply node_beq_refl.
   - apply forallb_forall. intros [p nd] Hin. cbn [fst]. unfold exists_, lstat.
-    apply in_app_or in Hin as [Hin|[Hin|[]]].
-    + apply filter_In in Hin as [Hin _]. destruct (fs_get f0 p) eqn:E; [reflexivity|].
-      exfalso. apply (proj1 (fs_get_None _ _) E nd Hin).
-    + injection Hin as <- _. destruct (fs_get f0 cfg); [reflexivity|congruence].
+    apply G3 in Hin as [->|[_ Hin]].
+    + destruct (fs_get f0 cfg); [reflexivity|congruence].
+    + destruct (fs_get f0 p) eqn:E; [reflexivity|]. exfalso. apply (proj1 (fs_get_None _ _) E nd Hin).
   - unfold C02.lfile_at. fold cfg in Hrd. rewrite Hrd.
-    assert (Hrd' : read_file (filter (not_at cfg) f0 ++ [(cfg, File X)]) cfg = Some X).
-    { unfold read_file. rewrite stat_nolink; [now rewrite Hg'|]. intros t. rewrite Hg'. discriminate. }
+    assert (Hrd' : read_file f' cfg = Some X).
+    { unfold read_file. rewrite stat_nolink; [now rewrite G1|]. intros t. rewrite G1. discriminate. }
     rewrite Hrd'. unfold X. rewrite layerfile_roundtrip by assumption. unfold C02.with_base. subst ms es.
     apply lf_beq_refl'.
 Qed.
 
 Lemma rebase_exact_post f0 e ld a b :
   fs_clean f0 -> nolink Lc f0 -> closed f0 -> NoDup (map fst f0) -> e_pretend e = false ->
-  exists_ f0 (pathjoin [layer_path c a; D_LayerconfigFile] ++ tmp_suffix) = false ->
   LDI (skel (read_layer_files c f0)) ld -> paths_ok c (ld_map ld) -> cores_ok c f0 (ld_map ld) ->
   post (fun w => w_fs w = f0) (rebase_layer e c ld a b) (fun _ w' => C02.rebase_exact c f0 (w_fs w') a b = true).
 Proof.
-  intros Hc0 Hn0 Hcl0 ND Hnp Hstale [Hs HW] HPa HCo. unfold rebase_layer.
+  intros Hc0 Hn0 Hcl0 ND Hnp [Hs HW] HPa HCo. unfold rebase_layer.
   apply post_guard_k. intros G0. apply andb_true_iff in G0 as [G1 G2].
   apply test_name_need in G1 as (Ha & La & l & El). apply test_name_opt in G2. rewrite El.
   apply post_guard_k. intros _. apply post_guard_k. intros _. cbv zeta. apply post_guard_k. intros _.
   apply post_guard_k. intros _.
   assert (Pa : plain a) by now apply legal_plain.
   pose proof (lm_get_name _ _ _ El) as Ena. pose proof (lm_get_in _ _ _ El) as Hin.
-  fold lcf in Hstale. rewrite (cfg_path_eq c Lc HLc HL a Pa), tmp_path_eq in Hstale.
-  assert (Htmp : fs_get f0 (tmpp Lc a) = None).
-  { unfold exists_, lstat in Hstale. destruct (fs_get f0 (tmpp Lc a)); [discriminate|reflexivity]. }
   destruct (HCo l Hin) as (l0 & Eld & Ecore). rewrite Ena in Eld.
   unfold load_layer in Eld. fold lcf in Eld. rewrite (cfg_path_eq c Lc HLc HL a Pa) in Eld.
   destruct (if is_file f0 (cfgp Lc a) then read_file f0 (cfgp Lc a) else None) as [content|] eqn:Erd; [|discriminate].
@@ -153,19 +233,19 @@ Proof.
   injection Ecore as _ _ Em Ee _.
   eapply post_bind; [apply post_renormalize|]. intros ld'. cbv beta.
   eapply post_bind.
-  - apply (write_cfg_exact e (set_base l b) a f0 Hnp Pa); auto. cbn [set_base l_path]. rewrite (HPa l Hin). now rewrite Ena.
-  - intros u. cbv beta. apply post_ret. intros w Ew. rewrite Ew. cbn [set_base l_base l_mounts l_exports].
+  - apply (write_cfg_lookup e (set_base l b) a f0 Hnp Pa); auto. cbn [set_base l_path]. rewrite (HPa l Hin). now rewrite Ena.
+  - intros u. cbv beta. apply post_ret. intros w HW'.
+    unfold chunks_of in HW'. cbn [set_base l_base l_mounts l_exports] in HW'.
     destruct (HW l Hin) as (_ & M1 & M2).
-    apply (rebase_exact_final f0 a b content); auto.
-    destruct b as [|b0 br]; [now left|right]. destruct G2 as [G2|(Lb & _)]; [discriminate|].
-    apply legal_tok; [exact Lb|discriminate].
+    apply (rebase_exact_final f0 (w_fs w) a b content (l_mounts l) (l_exports l)); auto.
+    + destruct b as [|b0 br]; [now left|right]. destruct G2 as [G2|(Lb & _)]; [discriminate|].
+      apply legal_tok; [exact Lb|discriminate].
 Qed.
 End D.
 
 (* ------------------------------------------------------------------ run level *)
 Definition no_stale_tmp (c : cfgT) (f : fsT) (cmd : command) : bool :=
   match cmd with
-  | CRebase a _ => negb (exists_ f (pathjoin [layer_path c a; D_LayerconfigFile] ++ tmp_suffix))
   | CRename a _ =>
       forallb (fun l' => negb ((beq (l_name l') a || beq (l_base l') a)
                                && exists_ f (layerconfig_path l' ++ tmp_suffix))) (C02.layers_of c f)
@@ -174,13 +254,13 @@ Definition no_stale_tmp (c : cfgT) (f : fsT) (cmd : command) : bool :=
 
 Theorem rebase_exact_run e c um a b0 s :
   cfg_ok c = true -> fs_ok c (w_fs (s_w s)) = true -> LC.nodup_paths (map fst (w_fs (s_w s))) = true ->
-  no_stale_tmp c (w_fs (s_w s)) (CRebase a b0) = true -> e_pretend e = false ->
+  e_pretend e = false ->
   match run_command e c um (CRebase a b0) s with
   | (Ret _, s') => C02.rebase_exact c (w_fs (s_w s)) (w_fs (s_w s')) a b0 = true
   | _ => True
   end.
 Proof.
-  intros Hcfg Hfs Hnd Hst Hnp.
+  intros Hcfg Hfs Hnd Hnp.
   destruct (cfg_ok_spec c Hcfg) as (Lc & bsr & wsr & usr & Ec & bpr & gpr & Bc & PL & EL & _).
   destruct (fs_ok_spec c Lc _ PL EL Hfs) as (Hc0 & Hn0 & Hcl0).
   cbn [run_command].
@@ -189,6 +269,5 @@ Proof.
   intros ld HLD _ HP HCo.
   eapply post_conseq; [apply (rebase_exact_post c Lc PL EL (w_fs (s_w s)) e ld a b0 Hc0 Hn0 Hcl0)| |]; cbv beta; auto.
   - now apply nodup_paths_NoDup.
-  - cbn [no_stale_tmp] in Hst. now apply negb_true_iff in Hst.
   - intros w ->. reflexivity.
 Qed.
